@@ -110,6 +110,7 @@ type Options struct {
 	TailEOF           bool // ReadAt returns io.EOF together with the data when it reaches the end of the file (as os.File does)
 	Monitor           bool // run the overlap monitor
 	KeepLog           bool // keep the full call log (default true via New)
+	PartialMaskDirs   bool // with PartialMask: directories (the root included) too
 	PartialMask       bool // the attribute mask of everything but directories comes back without Mode (the File contract allows partial masks; the attributes themselves are filled in)
 }
 
@@ -845,7 +846,7 @@ func (h *Handle) WalkGetAttr(names []string) ([]p9.QID, p9.File, p9.AttrMask, p9
 		return nil, nil, p9.AttrMask{}, p9.Attr{}, h.fs.errOf(errno)
 	}
 	mask := p9.AttrMaskAll
-	if h.fs.opts.PartialMask && !attr.Mode.IsDir() {
+	if h.fs.opts.PartialMask && (!attr.Mode.IsDir() || h.fs.opts.PartialMaskDirs) {
 		mask.Mode = false
 	}
 	return qids, nh, mask, attr, nil
@@ -891,7 +892,7 @@ func (h *Handle) GetAttr(req p9.AttrMask) (p9.QID, p9.AttrMask, p9.Attr, error) 
 		return p9.QID{}, p9.AttrMask{}, p9.Attr{}, h.fs.errOf(e)
 	}
 	mask := p9.AttrMaskAll
-	if h.fs.opts.PartialMask && !a.Mode.IsDir() {
+	if h.fs.opts.PartialMask && (!a.Mode.IsDir() || h.fs.opts.PartialMaskDirs) {
 		mask.Mode = false
 	}
 	return q, mask, a, nil
